@@ -71,6 +71,7 @@ type deferRec struct {
 }
 
 type Exec struct {
+	callerParams map[string]Value // at_call evaluation: the caller's parameters (see `caller(x)`)
 	P        *Prog
 	fn       *ssa.Function // function under verification
 	contract *Contract
